@@ -154,6 +154,42 @@ example : ∀ t ∈ [GoT.univ 10, GoT.strct 100 [({ name := "In", exported := tr
       ({ name := "A", exported := true, anon := false, tags := { name := "n" } }, .univ 11)]], noGroupT t = true := by
   decide
 
+/-! ### finding F19: the order of two accepted Provides *is* visible through a soft value group
+
+  The permutation half is stated `_partial` for a reason the model itself shows (a *test*, run by the evaluator at build
+  time; the same program is `corpus/F19-soft-group-after-failed-invoke.json`, replayed on the real library by every run
+  of `./check C16`): constructors `a` (needs a type nobody provides) and `b` both feed group `g`; an Invoke with a hard
+  `group:"g"` parameter fails — after running `b` when `b` was registered first, before running anything when `a` was;
+  what `b` returned stays stored, and the next Invoke with `group:"g,soft"` receives one member in one order and none
+  in the other.  Both Provides are accepted in both orders, the last Invoke succeeds in both. -/
+def f19Types : List TypeInfo :=
+  [{ id := 0, kind := .iface, elem := none, impl := [], isErr := true },
+   { id := 10, kind := .ptr, elem := none, impl := [], isErr := false },
+   { id := 11, kind := .ptr, elem := none, impl := [], isErr := false },
+   { id := 31, kind := .slice, elem := some 11, impl := [], isErr := false }]
+def f19In : FieldMeta × GoT := ({ name := "In", exported := true, anon := true, tags := {} }, .univ tIn)
+def f19Fns : List Fn :=
+  [{ id := 1, name := "a", nonfunc := none, ins := [.univ 10], variadic := false, outs := [.univ 11] },
+   { id := 2, name := "b", nonfunc := none, ins := [], variadic := false, outs := [.univ 11] },
+   { id := 3, name := "hard", nonfunc := none, variadic := false, outs := [],
+     ins := [.strct 100 [f19In, ({ name := "G", exported := true, anon := false, tags := { group := "g" } }, .univ 31)]] },
+   { id := 4, name := "soft", nonfunc := none, variadic := false, outs := [],
+     ins := [.strct 101 [f19In, ({ name := "G", exported := true, anon := false, tags := { group := "g,soft" } }, .univ 31)]] }]
+def f19Prog (first second : Nat) : Program :=
+  { cfg := {}, types := f19Types, fns := f19Fns, script := [],
+    ops := [.provide 0 first { group := "g" }, .provide 0 second { group := "g" }, .invoke 0 3 false, .invoke 0 4 false] }
+/-- verdicts (0 ok, 1 error) and the number of members the last, successful Invoke hands to its soft parameter -/
+def f19Obs (p : Program) : List Nat × Option Nat :=
+  let rs := (runProgram p).2
+  (rs.map fun r => match r.v with | .ok => 0 | _ => 1,
+   match rs.getLast? with
+   | some r => (match r.ev with
+     | .enter _ _ _ [.obj [.sl xs]] :: _ => some xs.length
+     | _ => none)
+   | none => none)
+#guard f19Obs (f19Prog 1 2) == ([0, 0, 1, 0], some 0)
+#guard f19Obs (f19Prog 2 1) == ([0, 0, 1, 0], some 1)
+
 #print axioms C16_defer_changes_nothing
 #print axioms C16_provide_and_decorate_commute_partial
 #print axioms C16_provide_ignores_decorators
